@@ -87,6 +87,7 @@ package literals
 //@   intmode bv
 //@   spec ops.smt2
 //@   may_panic when t != token.XOR && t != token.ADD && t != token.SUB
+//@   assigns nothing
 //@   ensures @computes-the-named-operator: r0 == spec.Eval(t, x, y)
 //@ end
 
@@ -95,6 +96,7 @@ package literals
 //@   intmode bv
 //@   spec ops.smt2
 //@   may_panic when t != token.XOR && t != token.ADD && t != token.SUB
+//@   assigns nothing
 //@   ensures @emits-the-inverse-operator-on-the-same-operands: r0 != nil && r0.Op == spec.Rev(t) && r0.X == x && r0.Y == y
 //@ end
 
@@ -137,7 +139,7 @@ package literals
 //@   property C05
 //@   spec indextype.smt2
 //@   assigns nothing
-//@   ensures @one-of-the-invertible-operators: spec.IsOpI(r0)
+//@   ensures @one-of-the-invertible-operators: r0 == token.XOR || r0 == token.ADD || r0 == token.SUB
 //@ end
 
 //@ func (*obfRand).pickObfuscator
@@ -145,4 +147,44 @@ package literals
 //@   fact @init-Obfuscators: len(Obfuscators) > 0 && len(CheapObfuscators) > 0
 //@   requires or != nil
 //@   may_panic when size < 8 || size > 2048
+//@ end
+
+// ---- C05: the simple obfuscator: every byte is encoded with the key byte of the same index and
+// the operator whose inverse is emitted; the emitted statements are the template
+//   key := <key bytes>; data := <encoded bytes>; for i, b := range key { data[i] = data[i] <inverse op> b }
+// The meaning of that template (Go's semantics of the three statements) is not formalised here;
+// together with the lemma reversed-operator-inverts it yields data[i] == original[i] for all i.
+
+//@ ghost litOf map[ref]string
+//@ ghost litPending string
+
+//@ hookset emitbytes
+//@ hook before mvdan.cc/garble/internal/literals.dataToByteSliceWithExtKeys(r, d, k)
+//@   litPending = str(d)
+//@ hook after mvdan.cc/garble/internal/literals.dataToByteSliceWithExtKeys(r, d, k) (e)
+//@   litOf[e] = litPending
+//@ end
+
+//@ func dataToByteSliceWithExtKeys
+//@   property C05
+//@   trusted emits a closure that rebuilds, at run time, the bytes data held when the call was made (it scrambles data in place with the external keys and emits the inverse operations in reverse order); its own round trip is covered by the bounded stand-in only; it builds new syntax nodes and writes only the bytes of data and the reference counters of the external keys
+//@   assigns elems(data), externalKey.refs
+//@   ensures r0 != nil && fresh(r0)
+//@ end
+
+//@ func (simple).obfuscate
+//@   property C05
+//@   intmode bv
+//@   spec ops.smt2 indextype.smt2
+//@   hooks emitbytes
+//@   skip safety call-requires
+//@   ensures @three-statements: r0 != nil && len(r0.List) == 3
+//@   ensures @first-the-key-then-the-encoded-data: dyntypeis(r0.List[0], *ast.AssignStmt) && r0.List[0].(*ast.AssignStmt).Tok == token.DEFINE && r0.List[0].(*ast.AssignStmt).Lhs[0].(*ast.Ident).Name == "key" && dyntypeis(r0.List[1], *ast.AssignStmt) && r0.List[1].(*ast.AssignStmt).Tok == token.DEFINE && r0.List[1].(*ast.AssignStmt).Lhs[0].(*ast.Ident).Name == "data"
+//@   ensures @emitted-data-is-the-original-encoded-bytewise-with-the-emitted-key: len(litOf[r0.List[0].(*ast.AssignStmt).Rhs[0]]) == old(len(data)) && len(litOf[r0.List[1].(*ast.AssignStmt).Rhs[0]]) == old(len(data)) && (forall j int :: 0 <= j && j < old(len(data)) ==> litOf[r0.List[1].(*ast.AssignStmt).Rhs[0]][j] == spec.Eval(op, old(data[j]), litOf[r0.List[0].(*ast.AssignStmt).Rhs[0]][j]))
+//@   ensures @decoder-walks-the-key-and-applies-the-inverse-operator-in-place: dyntypeis(r0.List[2], *ast.RangeStmt) && r0.List[2].(*ast.RangeStmt).Tok == token.DEFINE && r0.List[2].(*ast.RangeStmt).Key.(*ast.Ident).Name == "i" && r0.List[2].(*ast.RangeStmt).Value.(*ast.Ident).Name == "b" && r0.List[2].(*ast.RangeStmt).X.(*ast.Ident).Name == "key" && len(r0.List[2].(*ast.RangeStmt).Body.List) == 1 && dyntypeis(r0.List[2].(*ast.RangeStmt).Body.List[0], *ast.AssignStmt) && r0.List[2].(*ast.RangeStmt).Body.List[0].(*ast.AssignStmt).Tok == token.ASSIGN
+//@   ensures @decoder-statement-is-data-i-gets-data-i-inverse-op-b: r0.List[2].(*ast.RangeStmt).Body.List[0].(*ast.AssignStmt).Lhs[0].(*ast.IndexExpr).X.(*ast.Ident).Name == "data" && r0.List[2].(*ast.RangeStmt).Body.List[0].(*ast.AssignStmt).Lhs[0].(*ast.IndexExpr).Index.(*ast.Ident).Name == "i" && dyntypeis(r0.List[2].(*ast.RangeStmt).Body.List[0].(*ast.AssignStmt).Rhs[0], *ast.BinaryExpr) && r0.List[2].(*ast.RangeStmt).Body.List[0].(*ast.AssignStmt).Rhs[0].(*ast.BinaryExpr).Op == spec.Rev(op) && r0.List[2].(*ast.RangeStmt).Body.List[0].(*ast.AssignStmt).Rhs[0].(*ast.BinaryExpr).X.(*ast.IndexExpr).X.(*ast.Ident).Name == "data" && r0.List[2].(*ast.RangeStmt).Body.List[0].(*ast.AssignStmt).Rhs[0].(*ast.BinaryExpr).X.(*ast.IndexExpr).Index.(*ast.Ident).Name == "i" && r0.List[2].(*ast.RangeStmt).Body.List[0].(*ast.AssignStmt).Rhs[0].(*ast.BinaryExpr).Y.(*ast.Ident).Name == "b"
+//@   loop 0
+//@     invariant @encoded-prefix: forall j int :: 0 <= j && j < _i ==> data[j] == spec.Eval(op, old(data[j]), key[j])
+//@     invariant @untouched-suffix: forall j int :: _i <= j && j < len(data) ==> data[j] == old(data[j])
+//@     invariant @key-is-not-modified: forall j int :: 0 <= j && j < len(key) ==> key[j] == entry(key[j])
 //@ end
